@@ -517,14 +517,11 @@ fn do_enter<S: CmdSet>(
                 }
             }
             None => {
-                // content is left open by C07; only the count rule applies
-                let maybe_help = x.f.help_on && line.contains('h');
-                if maybe_help {
-                    x.stats.skipped_unspecified += 1;
-                } else if has_token(&line) && new_calls.len() != 1 {
-                    return Err((format!("{}: exactly one invocation for the line {:?}", what, line), format!("{} invocations", new_calls.len())));
-                } else {
-                    x.stats.skipped_unspecified += 1;
+                // the line touches an escape C07 leaves open: the handler must see one of the readings
+                x.stats.skipped_unspecified += 1;
+                match expected_dispatch(&line, x.f.help_on) {
+                    Dispatch::Unspecified => {}
+                    d => check_dispatch(&d, new_calls, what, &line)?,
                 }
             }
         }
@@ -925,6 +922,9 @@ pub enum Dispatch {
     Exactly(String, Vec<RArg>),
     /// exactly one invocation, content left open
     One,
+    /// the line touches escapes the quoting rules leave open: each reading of them gives one allowed outcome
+    /// (None = no invocation, Some = exactly one invocation with this name and these arguments)
+    AnyOf(Vec<Option<(String, Vec<RArg>)>>),
     /// left open
     Unspecified,
 }
@@ -943,13 +943,55 @@ pub fn expected_dispatch(line: &str, help_on: bool) -> Dispatch {
             }
         }
         None => {
-            if help_on && line.contains('h') {
-                Dispatch::Unspecified
-            } else if has_token(line) {
-                Dispatch::One
-            } else {
-                Dispatch::Unspecified
+            // every reading of the open escapes (`\c` = c or \c, a dangling backslash = nothing or \) is tokenised and
+            // classified; the handler must see one of them
+            let Some(pats) = crate::refs::ref_token_patterns(line) else { return Dispatch::Unspecified };
+            let open: usize = pats.iter().map(|t| t.iter().filter(|p| !matches!(p, crate::refs::Pc::Lit(_))).count()).sum();
+            if open > 6 {
+                return if has_token(line) && !(help_on && line.contains('h')) { Dispatch::One } else { Dispatch::Unspecified };
             }
+            let mut alts: Vec<Option<(String, Vec<RArg>)>> = Vec::new();
+            for mask in 0..(1u32 << open) {
+                let mut k = 0;
+                let toks: Vec<String> = pats
+                    .iter()
+                    .map(|t| {
+                        let mut o = String::new();
+                        for p in t {
+                            match p {
+                                crate::refs::Pc::Lit(c) => o.push(*c),
+                                crate::refs::Pc::Esc(c) => {
+                                    if mask >> k & 1 == 1 {
+                                        o.push('\\');
+                                    }
+                                    o.push(*c);
+                                    k += 1;
+                                }
+                                crate::refs::Pc::Dangling => {
+                                    if mask >> k & 1 == 1 {
+                                        o.push('\\');
+                                    }
+                                    k += 1;
+                                }
+                            }
+                        }
+                        o
+                    })
+                    .collect();
+                let alt = if toks.is_empty() {
+                    None
+                } else {
+                    match if help_on { is_help_request(&toks) } else { Some(false) } {
+                        None => return Dispatch::Unspecified,
+                        Some(true) => None,
+                        Some(false) => Some((toks[0].clone(), ref_classify(&toks[1..]))),
+                    }
+                };
+                if !alts.contains(&alt) {
+                    alts.push(alt);
+                }
+            }
+            Dispatch::AnyOf(alts)
         }
     }
 }
@@ -969,6 +1011,22 @@ pub fn check_dispatch(d: &Dispatch, new_calls: &[crate::session::Call], what: &s
                 Ok(())
             } else {
                 Err((format!("{}: exactly one invocation for the line {:?}", what, line), format!("{} invocations", new_calls.len())))
+            }
+        }
+        Dispatch::AnyOf(alts) => {
+            let got: Option<(Vec<u8>, Option<Vec<RArg>>)> = new_calls.first().map(|c| (c.name.clone(), c.args.iter().map(|a| a.to_ref()).collect()));
+            let ok = match (&got, new_calls.len()) {
+                (None, 0) => alts.contains(&None),
+                (Some((name, Some(args))), 1) => alts.iter().flatten().any(|(n, a)| n.as_bytes() == &name[..] && a == args),
+                _ => false,
+            };
+            if ok {
+                Ok(())
+            } else {
+                Err((
+                    format!("{}: the line {:?} touches open escapes; each reading of them allows one of {:?} (None = no invocation)", what, line, alts),
+                    format!("{} invocation(s): {:?}", new_calls.len(), new_calls),
+                ))
             }
         }
         Dispatch::Exactly(name, args) => {
